@@ -402,6 +402,19 @@ def real_kernels(rng, tier):
                 if not torch.allclose(out, ref, rtol=1e-7, atol=1e-9):
                     fails.append(dict(clause='JtR_is_robust_gradient', signature=f'{cname}/{name}', err=float((out - ref).abs().max())))
         if t < 1: samples.append(dict(n=n, d=dd, k=k))
+    # closed forms to float64 round-off for parameters that float32 cannot represent (a constant of the kernel kept in the default dtype shows
+    # here only): value, zero at zero, and the slope FastTriggs uses
+    import math as _m
+    closed = {'Huber': lambda p, x: x if _m.sqrt(x) < p else 2 * p * _m.sqrt(x) - p * p, 'PseudoHuber': lambda p, x: 2 * p * p * (_m.sqrt(x / (p * p) + 1) - 1),
+              'Cauchy': lambda p, x: p * p * _m.log(x / (p * p) + 1), 'SoftLOne': lambda p, x: 2 * (p * _m.sqrt(1 / (p * p) + x) - 1),
+              'Arctan': lambda p, x: p * p * _m.atan(x / (p * p)), 'Scale': lambda p, x: p * x}
+    for name, fn in closed.items():
+        for p in (0.3, 0.7, 1.0 / 3.0, 0.9):
+            ker = getattr(pp.optim.kernel, name)(p)
+            for xv in (0.0, 1e-3, 0.37, 2.5, 40.0):
+                got = float(ker(torch.tensor([xv], dtype=d64))[0]); want = fn(p, xv); evals += 1
+                if abs(got - want) > 1e-13 * (1 + abs(want)) + (0 if xv else 1e-15):
+                    fails.append(dict(clause='kernel_closed_form_float64', signature=f'{name}', delta=p, x=xv, got=got, want=want))
     # "raises on negative input" in float arithmetic: a negative input however small - also one that an intermediate like x / delta^2 + 1
     # would round away - is rejected, by every kernel, in both dtypes, alone or next to valid entries
     for name in ('Huber', 'PseudoHuber', 'Cauchy', 'SoftLOne', 'Arctan', 'Tolerant', 'Scale'):
